@@ -764,7 +764,8 @@ class C14(Prop):
       nums, bel = self.flat(d)
       fit = d.metadata.get('reward')
       items.append({'id': ident, 'nums': nums, 'beliefs': bel,
-                    'fit': None if fit is None else int(round(fit * 4))})
+                    'fit': None if fit is None else (int(round(fit * 4)) if isinstance(fit, (int, float))
+                                                        else repr(fit))})
     return {'outcome': 'ok', 'out': items}
 
   def is_valid(self, spec, d):
